@@ -12,11 +12,16 @@ import OttoVerif.C03.Spec
 import OttoVerif.C03.Lit
 import OttoVerif.C03.Asi
 import OttoVerif.C03.Punct
+import OttoVerif.C03.Trivia
 namespace OttoVerif.C03.Driver
 open OttoVerif.C03 OttoVerif.Proto
 
 def unhex (s : String) : Option String :=
   (bytes? s).bind fun bs => String.fromUTF8? (ByteArray.mk (bs.map (·.toUInt8)).toArray)
+
+/-- UTF-8 bytes → code points -/
+def unhexRunes (bs : List Nat) : Option (List Nat) :=
+  (String.fromUTF8? (ByteArray.mk (bs.map (·.toUInt8)).toArray)).map fun s => s.toList.map (·.toNat)
 
 def hexOf (s : String) : String := bytesOut (s.toUTF8.toList.map (·.toNat))
 
@@ -232,6 +237,19 @@ def handlePunct (h : String) : String :=
     show_ (Punct.modelTokens bs) ++ " " ++ show_ (Punct.specTokens bs) ++ " -"
   | none => "bad-request bad-request -"
 
+/-- cmt <nlbits> <expected> <srchex> <trivia of every gap, hex, '.'-separated, '-' = empty>: which gaps count as a line
+    terminator (model: the scan loop with insertSemicolon set; spec: 7.4); `<expected>` (the outcome for the reference text
+    that has a bare LF in exactly the gaps of nlbits) is confirmed when the decision agrees with nlbits.  The real parser is run in three modes
+    (0, StoreComments, StoreComments|IgnoreRegExpErrors) and must give this one answer in each. -/
+def handleCmt (nlbits expected gaps : String) : String :=
+  let gs := gaps.splitOn "."
+  let dec (f : List Nat → Option Bool) : String :=
+    String.ofList (gs.map fun g =>
+      match (if g == "-" then some [] else bytes? g).bind (fun bs => (unhexRunes bs).bind f) with
+      | some true => '1' | some false => '0' | none => '?')
+  let ans (bits : String) : String := if bits == nlbits then expected else "nl:" ++ bits
+  ans (dec (Trivia.modelNL true)) ++ " " ++ ans (dec Trivia.specNL) ++ " -"
+
 def handle (ws : List String) : String :=
   match ws with
   | ["expr", mode, tree, _src, toks] => handleExpr mode tree toks
@@ -239,6 +257,7 @@ def handle (ws : List String) : String :=
   | ["noin", form, tree, _src, toks] => handleNoIn form tree toks
   | ["asire", nlbits, stmts, toks, _src] => handleAsiRe nlbits stmts toks
   | ["punct", h] => handlePunct h
+  | ["cmt", nlbits, expected, _src, gaps] => handleCmt nlbits expected gaps
   | "obj" :: rest => Lit.handleObj rest
   | "numadj" :: rest => Lit.handleNumAdj rest
   | "num" :: rest => Lit.handleNum rest
